@@ -708,9 +708,6 @@ func (eval Evaluator) tensorStandard(op0 *rlwe.Ciphertext, op1 *rlwe.Element[rin
 		c00 = eval.buffQ[0]
 		c01 = eval.buffQ[1]
 
-		c0 = opOut.Value[0]
-		c1 = opOut.Value[1]
-
 		if !relin {
 			opOut.Resize(2, opOut.Level())
 			c2 = opOut.Value[2]
@@ -718,6 +715,9 @@ func (eval Evaluator) tensorStandard(op0 *rlwe.Ciphertext, op1 *rlwe.Element[rin
 			opOut.Resize(1, opOut.Level())
 			c2 = eval.buffQ[2]
 		}
+
+		c0 = opOut.Value[0]
+		c1 = opOut.Value[1]
 
 		// Avoid overwriting if the second input is the output
 		var tmp0, tmp1 *rlwe.Element[ring.Poly]
@@ -1336,9 +1336,6 @@ func (eval Evaluator) mulRelinThenAdd(op0 *rlwe.Ciphertext, op1 *rlwe.Element[ri
 		c00 = eval.buffQ[0]
 		c01 = eval.buffQ[1]
 
-		c0 = opOut.Value[0]
-		c1 = opOut.Value[1]
-
 		if !relin {
 			opOut.Resize(2, level)
 			c2 = opOut.Value[2]
@@ -1346,6 +1343,9 @@ func (eval Evaluator) mulRelinThenAdd(op0 *rlwe.Ciphertext, op1 *rlwe.Element[ri
 			opOut.Resize(utils.Max(1, opOut.Degree()), level)
 			c2 = eval.buffQ[2]
 		}
+
+		c0 = opOut.Value[0]
+		c1 = opOut.Value[1]
 
 		tmp0, tmp1 := op0.El(), op1.El()
 
